@@ -150,7 +150,7 @@ def run(prop, tier, seed, rep):
     shortr = sum(1 for e in events if any(c[0] == "r" and 0 <= c[2] < c[1] for c in e["calls"]))
     rep.extra.update({"program_shapes": [n for n, _ in sh], "model_schedules_replayed": nsched, "random_schedules": len(events) - nsched,
                       "decodes_with_interrupted_error": interrupted, "decodes_with_short_read": shortr,
-                      "model_drift": 0})
+                      "model_drift": len(core.LAST_INFOS)})
     rep.samples = [{"program": progs[6]["name"], "ops": progs[6]["prog"]},
                    {k: events[0][k] for k in ("bytes", "script", "calls", "outcome")}]
     rep.assumptions += ["read/seek programs are taken from reference runs of the real decoder (one per frame shape); the model covers the inner reader, the retry loops and the caching wrapper",
